@@ -18,11 +18,18 @@ def inh(method, cls):
 LEMMAS_BER = [j("specs.ber:" + n) for n in (
     "lemma_pow256_pos", "lemma_pow128_pos", "lemma_be_prefix", "lemma_b128_prefix", "lemma_b128end_prefix", "lemma_be_bound",
     "lemma_le_bound", "lemma_le_frame", "lemma_be_frame", "lemma_b128_frame", "lemma_be_le_reverse", "lemma_b128_le128_reverse",
-    "lemma_b128end_find", "lemma_pow2_8", "lemma_be_complement", "lemma_be_increment", "lemma_le128_frame")]
+    "lemma_b128end_find", "lemma_pow2_8", "lemma_be_complement", "lemma_be_increment", "lemma_le128_frame", "lemma_div_step",
+    "lemma_id_low", "lemma_id_high", "lemma_len_short", "lemma_len_long", "lemma_le_wrap", "lemma_le_increment", "lemma_le_all255",
+    "lemma_le_prefix", "lemma_tlv_roundtrip", "lemma_integer_roundtrip", "lemma_boolean_roundtrip")]
 
-ASN1_PROVED = [j("asn1:" + n) for n in (
+ASN1_FUNCS = [j("asn1:" + n) for n in (
     "_unpack_asn1_octet_number", "_pack_asn1_octet_number", "_read_asn1_header", "_validate_tag", "_read_asn1_octet_string",
-    "_read_asn1_sequence", "_read_asn1_set", "_read_asn1_boolean")]
+    "_read_asn1_sequence", "_read_asn1_set", "_read_asn1_boolean", "_read_asn1_integer", "_read_asn1_enumerated",
+    "_pack_asn1", "_pack_asn1_integer", "_pack_asn1_boolean", "_pack_asn1_octet_string", "_pack_asn1_enumerated",
+    "ASN1Reader.peek_header", "ASN1Reader.skip_value", "ASN1Reader.get_remaining_data", "ASN1Reader.read_octet_string",
+    "ASN1Reader.read_boolean", "ASN1Reader.read_integer", "ASN1Reader.read_sequence", "ASN1Reader.read_set",
+    "ASN1Writer.write_boolean", "ASN1Writer.write_octet_string", "ASN1Writer.write_integer", "ASN1Writer.write_enumerated",
+    "ASN1Writer.__exit__", "ASN1Writer.get_data")]
 
 SEND_CORE = [inh("_send", "LDAPServer"), inh("_send", "LDAPClient"), j(f"{S}:LDAPServer._send"), j(f"{S}:LDAPClient._send"),
              j(f"{S}:LDAPServer._validate_outgoing_message"),
@@ -34,7 +41,9 @@ DRAIN = [inh("data_to_send", "LDAPServer"), inh("data_to_send", "LDAPClient")]
 INCOMING = [j(f"{S}:LDAPClient._process_incoming_message"), j(f"{S}:LDAPServer._process_incoming_message")]
 
 REGISTRY = {
-    "C07": {"jobs": LEMMAS_BER + ASN1_PROVED, "native": "native_c07.py"},
+    "C07": {"jobs": LEMMAS_BER + ASN1_FUNCS, "native": "native_c07.py",
+            "assumptions": ["len(x) < 2^63 for every octet string (CPython sys.maxsize); INTEGER contents of at most 2^40 octets",
+                            "inlined without a contract of their own: ASN1Tag.universal_tag, ASN1Reader.__init__/__bool__/read_enumerated, ASN1Writer.__init__/__enter__/push_sequence/push_set (executed symbolically at every call site)"]},
     "C08": {"jobs": SEND_CORE + SERVER_API + CLIENT_API + INCOMING, "native": "native_session.py"},
     "C09": {"jobs": [j(f"{S}:LDAPClient._send"), inh("_send", "LDAPClient")] + CLIENT_API + [INCOMING[0]], "native": "native_session.py"},
     "C10": {"jobs": SEND_CORE + SERVER_API + CLIENT_API, "native": "native_session.py"},
